@@ -174,6 +174,13 @@ def check_transition(hist, op, pre):
                              'child or wire stays in place'}), 'post': None}
     outcome, post = nl.apply(pre, op)
     got = real.abstract()
+    if ((exc is None) != (outcome == 'ok') or got != post.key()) and op[0] in ('rename', 'reparent', 'reparentAndRename'):
+        # follow an implementation that mutates the wire before validating the destination (the statement does not
+        # forbid that residue by itself; what it forbids - a later call silently evicting the other wire - is then
+        # found on the following transitions)
+        outcome2, post2 = nl.apply(pre, op, residue=True)
+        if (exc is None) == (outcome2 == 'ok') and got == post2.key():
+            outcome, post = outcome2, post2
     if (exc is None) != (outcome == 'ok') or got != post.key():
         det = {'model_outcome': outcome, 'raised': exc, 'model': repr(post.key())[:1500], 'live': repr(got)[:1500]}
         if exc is None:
